@@ -332,7 +332,14 @@ def oracle (st : St) (r : Req) : Oracle := fun f σ =>
     -- signing an own, plain output with the right passphrase and an ALL flag succeeds: the run goes on to
     -- the next input; everything else is left to the script engine / coin selection (`deep`)
     if r.m = "SignRawTransaction" then
-      let own := match curOut with | some o => ownedByCur st o && o.cls = .std | none => false
+      -- a staking input only verifies with the sequence its script demands (frozen period + 1)
+      let seqOk := match curOut, reqTx st r with
+        | some o, some t =>
+          (match o.cls with
+           | .stk f => (match t.ins[vget σ "cur.in"]? with | some i => i.seq = f + 1 | none => false)
+           | _ => true)
+        | _, _ => true
+      let own := match curOut with | some o => ownedByCur st o && seqOk | none => false
       let single := r.arg 1 = "a:SINGLE" || r.arg 1 = "a:SINGLE|ANYONECANPAY"
       let nOuts := match reqTx st r with | some t => t.outs.length | none => 0
       let signs := !single || vget σ "cur.in" < nOuts        -- SigHashSingle needs a matching output
@@ -585,7 +592,7 @@ def deepSet (m : String) : List String :=
   | "CreateRawTransaction" => ["ok", "e1524", "e1522", "e1523", "e1110", "e1521", "e1504", "e1703"]
   | "AutoCreateTransaction" | "CreateStakingTransaction" | "CreateBindingTransaction" | "CreatePoolPkCoinbaseTransaction" =>
     ["ok", "e1304", "e1109", "e1110", "e1301", "e1703", "e1503", "e1504", "e1501"]
-  | "GetTransactionFee" => ["ok", "e1304", "e1109", "e1301", "e1503"]
+  | "GetTransactionFee" => ["ok", "e1304", "e1109", "e1301", "e1503", "e1501"]
   | "SignRawTransaction" => ["ok", "e1106", "e1507", "e1701"]
   | "DecodeRawTransaction" => ["ok", "e1102"]
   | "TxHistory" => ["ok", "e1702"]
@@ -702,6 +709,10 @@ def baseStep (st : St) (args : List String) : St × String :=
   | ["tx", t, u, ins, outs] =>
     let (l, o) := Led.step st.led ["tx", t, u, ins, scaleOuts outs]
     ({ st with led := l }, o)
+  | ["recvtx", _] =>
+    -- spec of the follower's unconfirmed path: the transaction is processed to a result (no panic)
+    let (l, o) := Led.step st.led args
+    ({ st with led := l }, if o.contains '\t' then o else o ++ "\t" ++ o)
   | op :: w :: _ =>
     let st1 := if usesWallet op then useEffect st w else st
     let (l, o) := Led.step st1.led args
@@ -725,10 +736,11 @@ def step (st : St) (args : List String) : St × String :=
     let (l, _) := Led.step st.led ["restart"]
     let st := doCall { st with led := l, cur := none } m a
     (st, "done\tdone")
+  -- spec of the worker steps: they complete (a panic or a hang is a violation with this history as replay)
   | ["rmrun", w] =>
     ({ st with removing := st.removing.filter (· != w), gone := st.gone ++ [w],
-               cur := if st.cur = some w then none else st.cur }, "ok")
-  | ["impstep", w] => ({ st with importing := st.importing.filter (· != w) }, "fin")
+               cur := if st.cur = some w then none else st.cur }, "ok\tok")
+  | ["impstep", w] => ({ st with importing := st.importing.filter (· != w) }, "fin\tfin")
   | ["cur"] => (st, st.cur.getD "-")
   | "x" :: rest =>
     -- robust mode: only "no panic" is observed; wallet selection side effects are still tracked
